@@ -414,6 +414,16 @@ pub fn gen_for(which: u32, seed: u64, count: usize, thorough: bool) -> String {
             }
         }
         writeln!(out, "run").unwrap();
+        if which == 11 && r.chance(1, 2) {
+            // the limit stopped the run (or it ran dry): events added afterwards that the limit still admits must be
+            // dispatched by the next run, the others must stay remaining - wherever they fall relative to the event
+            // the limit check last looked at
+            for _ in 0..r.range(1, 3) {
+                let time = start + r.below(f.horizon - start + 2);
+                writeln!(out, "add {} {}", time, r.below(f.nodes as u64)).unwrap();
+            }
+            writeln!(out, "run").unwrap();
+        }
         if which == 10 && r.chance(1, 4) {
             writeln!(out, "add {} {}", start + f.horizon + r.below(5), r.below(f.nodes as u64)).unwrap();
             writeln!(out, "run").unwrap();
